@@ -1,64 +1,64 @@
 (* Concrete inputs for the C15 examples (witnesses of findings.d/C15.json, all repaired in /repo).  The `_after` trees
-   are what the real implementation (at /repo HEAD c9f24a8) left behind, extracted by harness/xq.py, ids aside. *)
+   are what the real implementation (at /repo HEAD 29367a2) left behind, extracted by harness/xq.py, ids aside. *)
 From Delb.Base Require Import PyStr.
 From Delb.Tree Require Import ATree ITree.
 From Delb.XPath Require Import Ast Nav Eval FetchCreate.
 
-(* f_ex : a[@k='1']/c[@j='x' and @k='y']/d  on  <r><a k="1"><b/></a><a k="2"/><!--c--></r>  namespaces=None *)
+(* f_ex : a[@k='1']/c[@j='x' and @k='y']/d  on  <r><a k="1"><b/></a><a k="2"/><!--c--></r>  namespaces=None ambient=default *)
 Definition f_ex_tree : itree := (INode 1%N (PTag [] [114]%N []) [(INode 2%N (PTag [] [97]%N [([], [107]%N, [49]%N)]) [(INode 3%N (PTag [] [98]%N []) [])]); (INode 4%N (PTag [] [97]%N [([], [107]%N, [50]%N)]) []); (INode 5%N (PComment [99]%N) [])]).
 Definition f_ex_me : nsmap := [([], [])].
 Definition f_ex_mc : nsmap := [([], [])].
 Definition f_ex_expr : xpath_expr := [(LocationPath false [(LocationStep AxChild (NameMatchTest None [97]%N) [(BooleanOperator OpEq (AttributeValue None [107]%N) (AnyValue (VStr [49]%N)))]); (LocationStep AxChild (NameMatchTest None [99]%N) [(BooleanOperator OpAnd (BooleanOperator OpEq (AttributeValue None [106]%N) (AnyValue (VStr [120]%N))) (BooleanOperator OpEq (AttributeValue None [107]%N) (AnyValue (VStr [121]%N))))]); (LocationStep AxChild (NameMatchTest None [100]%N) [])])].
 Definition f_ex_after : itree := (INode 1%N (PTag [] [114]%N []) [(INode 2%N (PTag [] [97]%N [([], [107]%N, [49]%N)]) [(INode 3%N (PTag [] [98]%N []) []); (INode 4%N (PTag [] [99]%N [([], [106]%N, [120]%N); ([], [107]%N, [121]%N)]) [(INode 5%N (PTag [] [100]%N []) [])])]); (INode 6%N (PTag [] [97]%N [([], [107]%N, [50]%N)]) []); (INode 7%N (PComment [99]%N) [])]).
 Definition f_ex_pos : npath := [0%nat; 0%nat; 1%nat; 0%nat].
-(* f_dns : a[@k='1']/b  on  <r xmlns="d"/>  namespaces=None *)
+(* f_dns : a[@k='1']/b  on  <r xmlns="d"/>  namespaces=None ambient=default *)
 Definition f_dns_tree : itree := (INode 1%N (PTag [100]%N [114]%N [([0]%N, [], [100]%N)]) []).
 Definition f_dns_me : nsmap := [([], [100]%N)].
 Definition f_dns_mc : nsmap := [([], [100]%N)].
 Definition f_dns_expr : xpath_expr := [(LocationPath false [(LocationStep AxChild (NameMatchTest None [97]%N) [(BooleanOperator OpEq (AttributeValue None [107]%N) (AnyValue (VStr [49]%N)))]); (LocationStep AxChild (NameMatchTest None [98]%N) [])])].
 Definition f_dns_after : itree := (INode 1%N (PTag [100]%N [114]%N [([0]%N, [], [100]%N)]) [(INode 2%N (PTag [100]%N [97]%N [([], [107]%N, [49]%N); ([0]%N, [], [100]%N)]) [(INode 3%N (PTag [100]%N [98]%N [([0]%N, [], [100]%N)]) [])])]).
 Definition f_dns_pos : npath := [0%nat; 0%nat; 0%nat].
-(* f_abs : /other/b  on  <r/>  namespaces=None *)
+(* f_abs : /other/b  on  <r/>  namespaces=None ambient=default *)
 Definition f_abs_tree : itree := (INode 1%N (PTag [] [114]%N []) []).
 Definition f_abs_me : nsmap := [([], [])].
 Definition f_abs_mc : nsmap := [([], [])].
 Definition f_abs_expr : xpath_expr := [(LocationPath true [(LocationStep AxChild (NameMatchTest None [111;116;104;101;114]%N) []); (LocationStep AxChild (NameMatchTest None [98]%N) [])])].
 Definition f_abs_after : itree := (INode 1%N (PTag [] [114]%N []) []).
-(* f_pfx : p:a  on  <r/>  namespaces=None *)
+(* f_pfx : p:a  on  <r/>  namespaces=None ambient=default *)
 Definition f_pfx_tree : itree := (INode 1%N (PTag [] [114]%N []) []).
 Definition f_pfx_me : nsmap := [([], [])].
 Definition f_pfx_mc : nsmap := [([], [])].
 Definition f_pfx_expr : xpath_expr := [(LocationPath false [(LocationStep AxChild (NameMatchTest (Some [112]%N) [97]%N) [])])].
 Definition f_pfx_after : itree := (INode 1%N (PTag [] [114]%N []) []).
-(* f_amb : a/b  on  <r><a/><a/></r>  namespaces=None *)
+(* f_amb : a/b  on  <r><a/><a/></r>  namespaces=None ambient=default *)
 Definition f_amb_tree : itree := (INode 1%N (PTag [] [114]%N []) [(INode 2%N (PTag [] [97]%N []) []); (INode 3%N (PTag [] [97]%N []) [])]).
 Definition f_amb_me : nsmap := [([], [])].
 Definition f_amb_mc : nsmap := [([], [])].
 Definition f_amb_expr : xpath_expr := [(LocationPath false [(LocationStep AxChild (NameMatchTest None [97]%N) []); (LocationStep AxChild (NameMatchTest None [98]%N) [])])].
 Definition f_amb_after : itree := (INode 1%N (PTag [] [114]%N []) [(INode 2%N (PTag [] [97]%N []) []); (INode 3%N (PTag [] [97]%N []) [])]).
-(* f_bad : a[1]  on  <r><a/></r>  namespaces=None *)
+(* f_bad : a[1]  on  <r><a/></r>  namespaces=None ambient=default *)
 Definition f_bad_tree : itree := (INode 1%N (PTag [] [114]%N []) [(INode 2%N (PTag [] [97]%N []) [])]).
 Definition f_bad_me : nsmap := [([], [])].
 Definition f_bad_mc : nsmap := [([], [])].
 Definition f_bad_expr : xpath_expr := [(LocationPath false [(LocationStep AxChild (NameMatchTest None [97]%N) [(BooleanOperator OpEq (Function [112;111;115;105;116;105;111;110]%N []) (AnyValue (VNum 1%N)))])])].
 Definition f_bad_after : itree := (INode 1%N (PTag [] [114]%N []) [(INode 2%N (PTag [] [97]%N []) [])]).
-(* f_late : b/p:a  on  <r/>  namespaces=None *)
+(* f_late : b/p:a  on  <r/>  namespaces=None ambient=default *)
 Definition f_late_tree : itree := (INode 1%N (PTag [] [114]%N []) []).
 Definition f_late_me : nsmap := [([], [])].
 Definition f_late_mc : nsmap := [([], [])].
 Definition f_late_expr : xpath_expr := [(LocationPath false [(LocationStep AxChild (NameMatchTest None [98]%N) []); (LocationStep AxChild (NameMatchTest (Some [112]%N) [97]%N) [])])].
 Definition f_late_after : itree := (INode 1%N (PTag [] [114]%N []) []).
-(* f_empty : a  on  <r xmlns="d"><a/></r>  namespaces={} *)
+(* f_empty : a  on  <r xmlns="d"><a/></r>  namespaces={} ambient=default *)
 Definition f_empty_tree : itree := (INode 1%N (PTag [100]%N [114]%N [([0]%N, [], [100]%N)]) [(INode 2%N (PTag [100]%N [97]%N [([0]%N, [], [100]%N)]) [])]).
 Definition f_empty_me : nsmap := [].
 Definition f_empty_mc : nsmap := [].
 Definition f_empty_expr : xpath_expr := [(LocationPath false [(LocationStep AxChild (NameMatchTest None [97]%N) [])])].
 Definition f_empty_after : itree := (INode 1%N (PTag [100]%N [114]%N [([0]%N, [], [100]%N)]) [(INode 2%N (PTag [100]%N [97]%N [([0]%N, [], [100]%N)]) []); (INode 3%N (PTag [] [97]%N [([0]%N, [], [100]%N)]) [])]).
 Definition f_empty_pos : npath := [0%nat; 1%nat].
-(* f_vis : a/b on <r><a/></r> under altered_default_filters(is_comment_node) *)
+(* f_vis : a/b  on  <r><a/></r>  namespaces=None ambient=comment *)
 Definition f_vis_tree : itree := (INode 1%N (PTag [] [114]%N []) [(INode 2%N (PTag [] [97]%N []) [])]).
 Definition f_vis_me : nsmap := [([], [])].
 Definition f_vis_mc : nsmap := [([], [])].
 Definition f_vis_expr : xpath_expr := [(LocationPath false [(LocationStep AxChild (NameMatchTest None [97]%N) []); (LocationStep AxChild (NameMatchTest None [98]%N) [])])].
-Definition f_vis_after : itree := (INode 1%N (PTag [] [114]%N []) [(INode 2%N (PTag [] [97]%N []) []); (INode 3%N (PTag [] [97]%N []) [(INode 4%N (PTag [] [98]%N []) [])])]).
-(* returned node at (0, 1, 0) *)
+Definition f_vis_after : itree := (INode 1%N (PTag [] [114]%N []) [(INode 2%N (PTag [] [97]%N []) [(INode 3%N (PTag [] [98]%N []) [])])]).
+Definition f_vis_pos : npath := [0%nat; 0%nat; 0%nat].
